@@ -1,0 +1,17 @@
+//go:build verif
+
+// Frame-only contracts of the locking keeper entry points called from x/goat (comment-only).
+// They are TRUSTED (not verified here): only the `modifies` lists matter to the x/goat proofs.
+// The lists were read off the source of the callees (every collection of the locking keeper that
+// any of UpdateRewardPool / UpdateTokens / Create / Lock / Unlock / Claim may write).
+package keeper
+
+//@ func (Keeper).ProcessLockingRequest
+//@ property C09
+//@ trusted
+//@ modifies st.locking.Params, st.locking.Locking, st.locking.PowerRanking, st.locking.ValidatorSet, st.locking.Validators, st.locking.Tokens, st.locking.Threshold, st.locking.Slashed, st.locking.EthTxNonce, st.locking.RewardPool, st.locking.EthTxQueue, st.locking.UnlockQueue
+
+//@ func (Keeper).DequeueLockingModuleTx
+//@ property C08 C09
+//@ trusted
+//@ modifies st.locking.EthTxQueue, st.locking.EthTxNonce
